@@ -90,8 +90,11 @@ func (p *implReplayer) peekTask(ev string) string {
 	return "-"
 }
 
+// tokenOf: the model's view of an answer: ok = SanityCheckNewHeight accepts it (honest blocks and the
+// self-consistent forged ones), diff id and claimed root as far as they are the honest block's.
 func tokenOf(id *ids, e entry) string {
-	return fmt.Sprintf("%d:%d:%d:%d", e.Num, id.of(&e.Hash), id.of(&e.Parent), b2i(e.Valid))
+	d, r := id.claim(&e.Orig, &e.Hash, e.DiffSame, e.RootSame)
+	return fmt.Sprintf("%d:%d:%d:%d:%d:%d", e.Num, id.of(&e.Hash), id.of(&e.Parent), b2i(e.Sane), d, r)
 }
 
 // lastAnswerFor: the last answer to a request for height h in log[from:to] ("-" if none or an error)
@@ -238,7 +241,7 @@ func implReplay(drv *lib.Driver, id *ids, sc Scenario, out *outcome, pre []*lib.
 				// (a) storeTask: a valid block head+1 with another parent
 				for i := li - 1; i >= 0 && !started; i-- {
 					s := log[i]
-					if s.Kind == eServed && s.Valid && s.Num == head.num+1 && !s.Parent.Equal(&head.hash) {
+					if s.Kind == eServed && s.Sane && s.Num == head.num+1 && !s.Parent.Equal(&head.hash) {
 						p.ask(fmt.Sprintf("impl deliver %d %s 0", s.Req, tokenOf(id, s)))
 						hits["impl:deliver-parent-mismatch"]++
 						started = p.task != "-"
